@@ -115,13 +115,13 @@ JudgeForIndex(e) ==
   LET o   == e.out
       idx == BnFromDec(DecVals(StrToUtf8(e.in.index)))
       std == BnLt(idx, Two31)
-  IN  [cls |-> IF std THEN "accept" ELSE "either",
+  IN  [cls |-> IF std THEN "accept" ELSE "reject",
        devs |-> CrashDevs(o) \cup
          (IF ~std THEN
-            \* no default path exists for i >= 2^31: refusing is right; whatever is returned instead must at
-            \* least be a standard path (one whose printed form the path grammar accepts)
-            (IF IsOk(o) /\ Classify(StrToUtf8(o.ok.display)).c # "accept"
-             THEN {D({"C14"}, "for_index_nonstandard_path", o.ok.display)} ELSE {})
+            \* no default path exists for i >= 2^31: a returned path is either not standard (it would alias a hardened
+            \* index) or it is the path of ANOTHER index; refusing is the only answer about index i
+            (IF IsOk(o) THEN {D({"C14"}, IF Classify(StrToUtf8(o.ok.display)).c # "accept" THEN "for_index_nonstandard_path"
+                                         ELSE "for_index_path_of_another_index", o.ok.display)} ELSE {})
           ELSE IF IsOk(o) /\ StrToUtf8(o.ok.display) = PrintPath(ForIndex(idx)) THEN {}
           ELSE {D({"C14"}, "for_index", IF IsOk(o) THEN o.ok.display ELSE "no path")})]
 
